@@ -68,9 +68,9 @@ Definition kltsa_binding : list (string * string) :=
 Definition hlle_binding : list (string * string) := [("target_dimension", "target_dimension")].
 
 Theorem lle_calls_table :
-  method_ok lle_sig klle_call klle_neighbors klle_matrix klle_eig klle_binding = true /\
-  method_ok ltsa_sig kltsa_call kltsa_neighbors kltsa_matrix kltsa_eig kltsa_binding = true /\
-  method_ok hlle_sig hlle_call hlle_neighbors hlle_matrix hlle_eig hlle_binding = true.
+  method_ok mc_lle_sig mc_klle_call mc_klle_neighbors mc_klle_matrix mc_klle_eig klle_binding = true /\
+  method_ok mc_ltsa_sig mc_kltsa_call mc_kltsa_neighbors mc_kltsa_matrix mc_kltsa_eig kltsa_binding = true /\
+  method_ok mc_hlle_sig mc_hlle_call mc_hlle_neighbors mc_hlle_matrix mc_hlle_eig hlle_binding = true.
 Proof. vm_compute. repeat split; reflexivity. Qed.
 
 (* what method_ok says about the KLLE call, spelled out *)
